@@ -139,6 +139,7 @@ handshake:
 			case <-time.After(timeout):
 				g.log.Debugf("SYN resendTimeout. Resending " +
 					"SYN.")
+				vtrace(g.timeoutManager, "hsTimeout")
 				resent = true
 
 				continue handshake
@@ -155,6 +156,7 @@ handshake:
 			if err != nil {
 				return err
 			}
+			vtraceRx(g.timeoutManager, b)
 
 			g.log.Debugf("Got %T", resp)
 
